@@ -9,7 +9,8 @@ Next == UNCHANGED c
 Spec == Init /\ [][Next]_c
 
 (* pathcase: none | plain (not ignored) | ign1 | ign2 | ign3 (ignored directory 1..3 levels above) | ignfile |
-             ign_norespect (ignored path but --respect-ignores not given) | cfgdir (directory with its own stylua.toml) *)
+             ign_norespect (ignored path but --respect-ignores not given) | cfgdir (directory with its own stylua.toml) |
+             ecdir (directory with its own .editorconfig, none in the working directory) *)
 Passthrough == c.pathcase \in {"ign1", "ign2", "ign3", "ignfile"}
 ParseOk == c.input # "invalid"
 Expect == [ passthrough |-> Passthrough,
